@@ -276,7 +276,7 @@ func TestProtoConvMutations(t *testing.T) {
 			if excludedKnown(c, kfF9, hdrVersionBad(m.Header)) {
 				return
 			}
-			if excludedKnown(c, kfF10, int(m.Header.Nentries) != len(m.Entries)) {
+			if excludedKnown(c, kfF10, m.Header != nil && int(m.Header.Nentries) != len(m.Entries)) {
 				return
 			}
 			r = runPure(func() {
